@@ -1,29 +1,28 @@
-//go:build verif
+package memtpt
 
-package upgrader_test
-
-// C04 (connection part): every failed or finished connection releases all it acquired.
+// Connection-level fault enumeration for property C04 ("every failed or finished connection releases all it
+// acquired"), shared by the harness parts that drive the upgrader directly and through the real TCP transport.
 //
-// Engine E3 (faultenum). Two REAL upgraders (real Noise / TLS, real yamux, optional PSK, a real resource
-// manager behind a refusing decorator, a scripted gater) are joined by an in-memory connection pair
-// (x/verif/memnet) inside a testing/synctest bubble. One run = one scenario with at most one fault; after
-// every run the audit of the statement is evaluated on BOTH sides:
+// Two REAL upgraders (real Noise / TLS, real yamux, optional PSK, a real resource manager behind a refusing
+// decorator, a scripted gater) are joined by an in-memory connection pair (x/verif/memnet) inside a
+// testing/synctest bubble. One run = one scenario with at most one fault; after every run the audit of the
+// statement is evaluated on BOTH sides:
 //
 //	(i)   system / transient / every listed peer, protocol, service scope == value before the attempt
 //	(ii)  the raw connection handed to the code under test observed Close
 //	(iii) no goroutine of the bubble is left once listeners and resource managers are shut down
-//
-// This file lives in the external test package because p2p/security/{noise,tls} import the upgrader.
 
 import (
 	"context"
 	"errors"
 	"fmt"
 	"io"
+	"net"
 	"runtime"
 	"sort"
 	"strings"
 	"sync"
+	"syscall"
 	"testing"
 	"testing/synctest"
 	"time"
@@ -34,30 +33,37 @@ import (
 	"github.com/libp2p/go-libp2p/core/transport"
 	"github.com/libp2p/go-libp2p/p2p/net/upgrader"
 	"github.com/libp2p/go-libp2p/x/verif/memnet"
-	"github.com/libp2p/go-libp2p/x/verif/memtpt"
+	"github.com/libp2p/go-libp2p/x/verif/vrep"
 	ma "github.com/multiformats/go-multiaddr"
 )
 
+// ThresholdCount, when set by a white-box harness of the upgrader package, reads the listener's backpressure
+// counter (diagnostics only).
+var ThresholdCount func(transport.Listener) (int, bool)
+
+// Seed feeds the deterministic identities.
+var Seed = vrep.Seed()
+
 const (
-	c04StepTimeout = 30 * time.Second // virtual: how long a harness step (Close, ...) may block
-	c04Settle      = 3 * time.Minute  // virtual: longer than every deadline of the pipeline (accept 15s, negotiate 60s, yamux keep-alive 30s + write timeout 10s, TLS close-notify 5s)
+	StepTimeout = 30 * time.Second // virtual: how long a harness step (Close, ...) may block
+	Settle      = 3 * time.Minute  // virtual: longer than every deadline of the pipeline (accept 15s, negotiate 60s, yamux keep-alive 30s + write timeout 10s, TLS close-notify 5s)
 )
 
 var (
-	c04AddrOut = ma.StringCast("/ip4/10.1.1.1/tcp/4001")
-	c04AddrIn  = ma.StringCast("/ip4/10.2.2.2/tcp/4002")
+	AddrOut = ma.StringCast("/ip4/10.1.1.1/tcp/4001")
+	AddrIn  = ma.StringCast("/ip4/10.2.2.2/tcp/4002")
 )
 
 // ---------- cases ----------
 
-type c04Fault struct {
-	Kind string `json:"kind"`           // none | io | cancel | lnclose | connclose | gater | rcmgr | cancelcall
+type Fault struct {
+	Kind string `json:"kind"`           // none | io | cancel | lnclose | connclose | gater | rcmgr | cancelcall | rawdial
 	Side string `json:"side,omitempty"` // out | in: the raw end whose op index triggers, resp. the side whose gater / resource manager is scripted
 	K    int    `json:"k"`              // I/O operation index on that end, resp. n-th call
-	What string `json:"what,omitempty"` // I/O fault name, gater hook, resource-manager call kind
+	What string `json:"what,omitempty"` // I/O fault name, gater hook, resource-manager call kind, raw-dial outcome (refused | timeout | canceled-after-connect)
 }
 
-func (f c04Fault) String() string {
+func (f Fault) String() string {
 	if f.Kind == "none" || f.Kind == "" {
 		return "none"
 	}
@@ -69,7 +75,7 @@ func (f c04Fault) String() string {
 }
 
 // class of the fault without the position
-func (f c04Fault) class() string {
+func (f Fault) class() string {
 	if f.Kind == "none" || f.Kind == "" {
 		return "none"
 	}
@@ -80,13 +86,13 @@ func (f c04Fault) class() string {
 	return s + "@" + f.Side
 }
 
-type c04Variant struct {
+type Variant struct {
 	InClosesFirst bool `json:"in_closes_first,omitempty"` // teardown order of the two upgraded connections
 	LateAccept    bool `json:"late_accept,omitempty"`     // Accept is only called 2s after the dial started
 	ShortDial     bool `json:"short_dial,omitempty"`      // outbound context expires before (10s) instead of after (20s) the accept timeout
 }
 
-func (v c04Variant) String() string {
+func (v Variant) String() string {
 	s := ""
 	if v.InClosesFirst {
 		s += "+inclosesfirst"
@@ -100,18 +106,18 @@ func (v c04Variant) String() string {
 	return s
 }
 
-type c04Case struct {
-	Cfg      memtpt.Config `json:"cfg"`
+type Case struct {
+	Cfg      Config `json:"cfg"`
 	Scenario string        `json:"scenario"`
-	Variant  c04Variant    `json:"variant"`
-	Fault    c04Fault      `json:"fault"`
+	Variant  Variant    `json:"variant"`
+	Fault    Fault      `json:"fault"`
 }
 
-func (c c04Case) String() string {
+func (c Case) String() string {
 	return fmt.Sprintf("%s/%s%s/%s", c.Cfg, c.Scenario, c.Variant, c.Fault)
 }
 
-type c04Scenario struct {
+type Scenario struct {
 	NConns          int
 	AcceptAfter     time.Duration // <0: never call Accept; 0: acceptor runs from the start; >0: Accept is first called after this delay
 	QueueLen        int           // override of upgrader.AcceptQueueLength (0: default)
@@ -119,7 +125,7 @@ type c04Scenario struct {
 	ForcePNet       bool          // ipnet.ForcePrivateNetwork = true
 }
 
-var c04Scenarios = map[string]c04Scenario{
+var Scenarios = map[string]Scenario{
 	// upgrade both ends, one yamux stream, echo, close both connections, close the listener
 	"echo": {NConns: 1},
 	// accept-queue timeout: nobody calls Accept until well after acceptTimeout
@@ -136,13 +142,13 @@ var c04Scenarios = map[string]c04Scenario{
 
 // ---------- result of one run ----------
 
-type c04Vio struct {
+type Vio struct {
 	Key  string `json:"key"`
 	Desc string `json:"desc"`
 }
 
-type c04Result struct {
-	Case     c04Case        `json:"case"`
+type Result struct {
+	Case     Case        `json:"case"`
 	OutStage string         `json:"out_stage"` // where the outbound upgrade stopped ("ok" = upgraded)
 	InStage  string         `json:"in_stage"`  // furthest milestone of the inbound side
 	Post     string         `json:"post"`      // what happened on the upgraded connection
@@ -152,33 +158,49 @@ type c04Result struct {
 	RcCalls  [2]map[string]int `json:"rcmgr_calls"`
 	GaCalls  [2]map[string]int `json:"gater_calls"`
 	Fired    bool           `json:"fault_fired"`
-	Vios     []c04Vio       `json:"violations,omitempty"`
+	Vios     []Vio       `json:"violations,omitempty"`
 	Infra    string         `json:"infra,omitempty"` // harness-level problem: no verdict
 	Trace    []string       `json:"trace,omitempty"`
 }
 
-func (r *c04Result) class() string {
+func (r *Result) class() string {
 	return fmt.Sprintf("%s|%s%s|%s|out=%s|in=%s|%s", r.Case.Cfg, r.Case.Scenario, r.Case.Variant, r.Case.Fault.class(), r.OutStage, r.InStage, r.Post)
+}
+
+// coarse: the class without configuration, variant and end (keeps the evidence histogram readable)
+func (r *Result) coarse() string {
+	f := r.Case.Fault
+	k := f.Kind
+	if f.What != "" {
+		k += ":" + f.What
+	}
+	if k == "" {
+		k = "none"
+	}
+	return fmt.Sprintf("%s|%s|out=%s|in=%s|%s", r.Case.Scenario, k, r.OutStage, r.InStage, r.Post)
 }
 
 // ---------- stub transport ----------
 
-type c04Tpt struct{}
+type StubTransport struct{}
 
-func (c04Tpt) Dial(context.Context, ma.Multiaddr, peer.ID) (transport.CapableConn, error) {
+func (StubTransport) Dial(context.Context, ma.Multiaddr, peer.ID) (transport.CapableConn, error) {
 	return nil, errors.New("stub")
 }
-func (c04Tpt) CanDial(ma.Multiaddr) bool                         { return false }
-func (c04Tpt) Listen(ma.Multiaddr) (transport.Listener, error)   { return nil, errors.New("stub") }
-func (c04Tpt) Protocols() []int                                  { return []int{ma.P_TCP} }
-func (c04Tpt) Proxy() bool                                       { return false }
-func (c04Tpt) String() string                                    { return "memtpt" }
+func (StubTransport) CanDial(ma.Multiaddr) bool                         { return false }
+func (StubTransport) Listen(ma.Multiaddr) (transport.Listener, error)   { return nil, errors.New("stub") }
+func (StubTransport) Protocols() []int                                  { return []int{ma.P_TCP} }
+func (StubTransport) Proxy() bool                                       { return false }
+func (StubTransport) String() string                                    { return "memtpt" }
 
 // ---------- one run ----------
 
-type c04Attempt struct {
-	cOut, cIn *memnet.Conn
-	dialed    bool // the raw connection was "dialed": cIn was pushed to the listener, cOut handed to Upgrade
+// Attempt is one outbound dial of a run.
+type Attempt struct {
+	Index     int
+	COut, CIn *memnet.Conn
+	RawFault  string // "" or the raw-dial outcome to simulate (refused | timeout | canceled-after-connect)
+	Dialed    bool   // the raw connection was "dialed": CIn was pushed to the listener, COut handed to the code under test
 	conn      transport.CapableConn
 	err       error
 	stage     string
@@ -186,28 +208,82 @@ type c04Attempt struct {
 	done      chan struct{}
 }
 
-type c04H struct {
+// Env is what a DialFunc gets to work with.
+type Env struct {
+	Out, In *Side
+	ML      *memnet.Listener // the inbound side's raw listener
+	Trace   func(f string, a ...any)
+}
+
+// RawDial is the harness's stand-in for the raw network dial: it hands out the outbound end of the attempt's
+// pair (putting the inbound end into the listener's backlog), or fails the way the attempt's RawFault says.
+// A DialFunc calls it exactly where the code under test would dial the socket.
+func (e *Env) RawDial(ctx context.Context, a *Attempt) (*memnet.Conn, error) {
+	switch a.RawFault {
+	case "refused":
+		return nil, &net.OpError{Op: "dial", Net: "tcp", Addr: a.COut.RemoteAddr(), Err: syscall.ECONNREFUSED}
+	case "timeout":
+		<-ctx.Done()
+		return nil, &net.OpError{Op: "dial", Net: "tcp", Addr: a.COut.RemoteAddr(), Err: ctx.Err()}
+	}
+	a.Dialed = true
+	e.ML.Push(a.CIn)
+	if a.RawFault == "canceled-after-connect" && a.cancel != nil {
+		a.cancel() // the socket is connected, but the caller gave up at that very moment
+	}
+	return a.COut, nil
+}
+
+// DialFunc performs the outbound side of one attempt and returns the upgraded connection. stage may name
+// the stage at which it stopped (otherwise it is derived from the error).
+type DialFunc func(ctx context.Context, e *Env, a *Attempt) (c transport.CapableConn, stage string, err error)
+
+// MirrorDial does, step by step, what p2p/transport/tcp's DialWithUpdates / dialWithScope do around the
+// upgrader: OpenConnection, SetPeer, raw dial, Upgrade, and connScope.Done() when anything failed.
+func MirrorDial(ctx context.Context, e *Env, a *Attempt) (transport.CapableConn, string, error) {
+	connScope, err := e.Out.RM.OpenConnection(network.DirOutbound, true, AddrIn)
+	if err != nil {
+		return nil, "", err
+	}
+	c, err := func() (transport.CapableConn, error) {
+		if err := connScope.SetPeer(e.In.ID); err != nil {
+			return nil, err
+		}
+		raw, err := e.RawDial(ctx, a)
+		if err != nil {
+			return nil, err
+		}
+		return e.Out.Upgrader.Upgrade(ctx, StubTransport{}, raw, network.DirOutbound, e.In.ID, connScope)
+	}()
+	if err != nil {
+		connScope.Done()
+		return nil, "", err
+	}
+	return c, "", nil
+}
+
+type harness struct {
 	mu    sync.Mutex
-	res   *c04Result
+	res   *Result
 	start time.Time
 	hung  []string
 }
 
-func (h *c04H) trace(f string, a ...any) {
+func (h *harness) trace(f string, a ...any) {
 	h.mu.Lock()
 	h.res.Trace = append(h.res.Trace, fmt.Sprintf("[%6.2fs] ", time.Since(h.start).Seconds())+fmt.Sprintf(f, a...))
 	h.mu.Unlock()
 }
 
-func (h *c04H) vio(key, f string, a ...any) {
+func (h *harness) vio(key, f string, a ...any) {
 	h.mu.Lock()
-	h.res.Vios = append(h.res.Vios, c04Vio{Key: key, Desc: fmt.Sprintf(f, a...)})
+	h.res.Vios = append(h.res.Vios, Vio{Key: key, Desc: fmt.Sprintf(f, a...)})
 	h.mu.Unlock()
 }
 
-// step runs f in its own goroutine and waits at most c04StepTimeout (virtual). A step that does not return
+// step runs f in its own goroutine and waits at most StepTimeout (virtual). A step that does not return
 // leaves its goroutine behind, which the goroutine audit reports together with its stack.
-func (h *c04H) step(name string, f func()) bool {
+func (h *harness) step(name string, f func()) bool {
 	done := make(chan struct{})
 	go func() {
 		defer close(done)
@@ -216,8 +292,8 @@ func (h *c04H) step(name string, f func()) bool {
 	select {
 	case <-done:
 		return true
-	case <-time.After(c04StepTimeout):
-		h.trace("step %q still blocked after %v", name, c04StepTimeout)
+	case <-time.After(StepTimeout):
+		h.trace("step %q still blocked after %v", name, StepTimeout)
 		h.mu.Lock()
 		h.hung = append(h.hung, name)
 		h.mu.Unlock()
@@ -225,7 +301,7 @@ func (h *c04H) step(name string, f func()) bool {
 	}
 }
 
-func c04OutStage(err error) string {
+func OutStage(err error) string {
 	if err == nil {
 		return "ok"
 	}
@@ -236,6 +312,14 @@ func c04OutStage(err error) string {
 		st = "pnet"
 	case errors.Is(err, upgrader.ErrNilPeer):
 		st = "nilpeer"
+	case strings.Contains(s, "memnet: refusing OpenConnection"):
+		st = "refused-openconnection"
+	case strings.Contains(s, "memnet: refusing SetPeer"):
+		st = "refused-setpeer"
+	case strings.Contains(s, "connection refused"):
+		st = "rawdial-refused"
+	case strings.Contains(s, "dial tcp"):
+		st = "rawdial"
 	case strings.Contains(s, "failed to setup private network protector"):
 		st = "pnet-setup"
 	case strings.Contains(s, "failed to negotiate security protocol"):
@@ -255,8 +339,8 @@ func c04OutStage(err error) string {
 	return st
 }
 
-// c04InStage: the furthest milestone the inbound side reached, read off the decorators' call counters.
-func c04InStage(in *memtpt.Side, accepted int) string {
+// inStage: the furthest milestone the inbound side reached, read off the decorators' call counters.
+func inStage(in *Side, accepted int) string {
 	rc, ga := in.RM.Counts(), in.Gater.Counts()
 	switch {
 	case accepted > 0:
@@ -275,10 +359,10 @@ func c04InStage(in *memtpt.Side, accepted int) string {
 	return "nothing"
 }
 
-var c04Payload = []byte("c04-ping")
+var echoPayload = []byte("c04-ping")
 
-// c04Serve echoes on every stream the peer opens on c until the connection dies.
-func c04Serve(h *c04H, c transport.CapableConn) {
+// serveEcho echoes on every stream the peer opens on c until the connection dies.
+func serveEcho(h *harness, c transport.CapableConn) {
 	for {
 		s, err := c.AcceptStream()
 		if err != nil {
@@ -286,7 +370,7 @@ func c04Serve(h *c04H, c transport.CapableConn) {
 		}
 		go func() {
 			s.SetDeadline(time.Now().Add(10 * time.Second))
-			buf := make([]byte, len(c04Payload))
+			buf := make([]byte, len(echoPayload))
 			if _, err := io.ReadFull(s, buf); err != nil {
 				h.trace("echo server: read: %v", err)
 				s.Reset()
@@ -302,8 +386,8 @@ func c04Serve(h *c04H, c transport.CapableConn) {
 	}
 }
 
-// c04Echo opens one stream on c, sends the payload and expects it back.
-func c04Echo(h *c04H, ctx context.Context, c transport.CapableConn) string {
+// doEcho opens one stream on c, sends the payload and expects it back.
+func doEcho(h *harness, ctx context.Context, c transport.CapableConn) string {
 	octx, cancel := context.WithTimeout(ctx, 10*time.Second)
 	defer cancel()
 	s, err := c.OpenStream(octx)
@@ -312,18 +396,18 @@ func c04Echo(h *c04H, ctx context.Context, c transport.CapableConn) string {
 		return "open-stream-failed"
 	}
 	s.SetDeadline(time.Now().Add(10 * time.Second))
-	if _, err := s.Write(c04Payload); err != nil {
+	if _, err := s.Write(echoPayload); err != nil {
 		h.trace("stream write: %v", err)
 		s.Reset()
 		return "stream-write-failed"
 	}
-	buf := make([]byte, len(c04Payload))
+	buf := make([]byte, len(echoPayload))
 	if _, err := io.ReadFull(s, buf); err != nil {
 		h.trace("stream read: %v", err)
 		s.Reset()
 		return "stream-read-failed"
 	}
-	if string(buf) != string(c04Payload) {
+	if string(buf) != string(echoPayload) {
 		s.Reset()
 		return "echo-mismatch"
 	}
@@ -333,10 +417,13 @@ func c04Echo(h *c04H, ctx context.Context, c transport.CapableConn) string {
 	return "echo-ok"
 }
 
-// c04RunInBubble executes one case. It must run as the root function of a synctest bubble.
-func c04RunInBubble(cs c04Case, res *c04Result) {
-	h := &c04H{res: res, start: time.Now()}
-	scn, ok := c04Scenarios[cs.Scenario]
+// runInBubble executes one case. It must run as the root function of a synctest bubble.
+func runInBubble(cs Case, res *Result, dial DialFunc) {
+	if dial == nil {
+		dial = MirrorDial
+	}
+	h := &harness{res: res, start: time.Now()}
+	scn, ok := Scenarios[cs.Scenario]
 	if !ok {
 		res.Infra = "unknown scenario " + cs.Scenario
 		return
@@ -350,26 +437,27 @@ func c04RunInBubble(cs c04Case, res *c04Result) {
 		ipnet.ForcePrivateNetwork = true
 		defer func() { ipnet.ForcePrivateNetwork = false }()
 	}
-	out, err := memtpt.NewSide("out", cs.Cfg, c04Seed, c04AddrOut)
+	out, err := NewSide("out", cs.Cfg, Seed, AddrOut)
 	if err != nil {
 		res.Infra = "fixture: " + err.Error()
 		return
 	}
-	in, err := memtpt.NewSide("in", cs.Cfg, c04Seed, c04AddrIn)
+	in, err := NewSide("in", cs.Cfg, Seed, AddrIn)
 	if err != nil {
 		out.RM.Close()
 		res.Infra = "fixture: " + err.Error()
 		return
 	}
-	sides := [2]*memtpt.Side{out, in}
+	sides := [2]*Side{out, in}
 	sideOf := func(name string) int {
 		if name == "in" {
 			return 1
 		}
 		return 0
 	}
-	ml := memnet.Listen(c04AddrIn)
-	ln := in.Upgrader.UpgradeListener(c04Tpt{}, ml)
+	ml := memnet.Listen(AddrIn)
+	ln := in.Upgrader.UpgradeListener(StubTransport{}, ml)
+	env := &Env{Out: out, In: in, ML: ml, Trace: h.trace}
 
 	var before [2]memnet.Snap
 	for i, s := range sides {
@@ -407,7 +495,7 @@ func c04RunInBubble(cs c04Case, res *c04Result) {
 	if cs.Variant.ShortDial {
 		dialTimeout = 10 * time.Second
 	}
-	atts := make([]*c04Attempt, scn.NConns)
+	atts := make([]*Attempt, scn.NConns)
 	var lnCloseOnce sync.Once
 	closeListenerAsync := func(why string) {
 		lnCloseOnce.Do(func() {
@@ -419,9 +507,13 @@ func c04RunInBubble(cs c04Case, res *c04Result) {
 		})
 	}
 	for i := range atts {
-		a := &c04Attempt{done: make(chan struct{})}
-		a.cOut, a.cIn = memnet.NewPair(memnet.PairConfig{NameA: fmt.Sprintf("out%d", i), NameB: fmt.Sprintf("in%d", i),
-			AddrA: ma.StringCast(fmt.Sprintf("/ip4/10.1.1.1/tcp/%d", 4001+10*i)), AddrB: c04AddrIn})
+		a := &Attempt{Index: i, done: make(chan struct{})}
+		if i == 0 && f.Kind == "rawdial" {
+			a.RawFault = f.What
+			res.Fired = true
+		}
+		a.COut, a.CIn = memnet.NewPair(memnet.PairConfig{NameA: fmt.Sprintf("out%d", i), NameB: fmt.Sprintf("in%d", i),
+			AddrA: ma.StringCast(fmt.Sprintf("/ip4/10.1.1.1/tcp/%d", 4001+10*i)), AddrB: AddrIn})
 		atts[i] = a
 	}
 	var ctx0 context.Context
@@ -430,7 +522,7 @@ func c04RunInBubble(cs c04Case, res *c04Result) {
 	// connections as the harness learns about them (for the "connclose" fault)
 	var liveMu sync.Mutex
 	var liveConn [2]transport.CapableConn
-	ends := [2]*memnet.Conn{atts[0].cOut, atts[0].cIn}
+	ends := [2]*memnet.Conn{atts[0].COut, atts[0].CIn}
 	switch f.Kind {
 	case "io":
 		var io memnet.Fault
@@ -501,7 +593,7 @@ func c04RunInBubble(cs c04Case, res *c04Result) {
 					liveConn[1] = c
 				}
 				liveMu.Unlock()
-				go c04Serve(h, c)
+				go serveEcho(h, c)
 				accepted <- c
 			}
 		}()
@@ -526,26 +618,14 @@ func c04RunInBubble(cs c04Case, res *c04Result) {
 		}
 		go func() {
 			defer close(a.done)
-			connScope, err := out.RM.OpenConnection(network.DirOutbound, true, c04AddrIn)
-			if err != nil {
-				a.err, a.stage = err, "refused-openconnection"
-				return
-			}
-			a.conn, a.err = func() (transport.CapableConn, error) {
-				if err := connScope.SetPeer(in.ID); err != nil {
-					a.stage = "refused-setpeer"
-					return nil, err
-				}
-				// the raw dial succeeds: the remote end lands in the listener's backlog
-				a.dialed = true
-				ml.Push(a.cIn)
-				return out.Upgrader.Upgrade(ctx, c04Tpt{}, a.cOut, network.DirOutbound, in.ID, connScope)
-			}()
+			var stage string
+			a.conn, stage, a.err = dial(ctx, env, a)
 			if a.err != nil {
-				connScope.Done() // DialWithUpdates
-				if a.stage == "" {
-					a.stage = c04OutStage(a.err)
+				a.conn = nil
+				if stage == "" {
+					stage = OutStage(a.err)
 				}
+				a.stage = stage
 				return
 			}
 			a.stage = "ok"
@@ -605,7 +685,7 @@ func c04RunInBubble(cs c04Case, res *c04Result) {
 		if a.conn == nil {
 			continue
 		}
-		p := c04Echo(h, context.Background(), a.conn)
+		p := doEcho(h, context.Background(), a.conn)
 		if i == 0 {
 			res.Post = p
 		}
@@ -655,11 +735,11 @@ func c04RunInBubble(cs c04Case, res *c04Result) {
 	}
 
 	// let every deadline of the pipeline expire
-	time.Sleep(c04Settle)
+	time.Sleep(Settle)
 	synctest.Wait()
 
 	// ----- facts about the run -----
-	res.InStage = c04InStage(in, len(inConns))
+	res.InStage = inStage(in, len(inConns))
 	for i, e := range ends {
 		res.Ops[i], res.Kinds[i] = e.Ops(), e.Kinds()
 		res.RcCalls[i], res.GaCalls[i] = sides[i].RM.Counts(), sides[i].Gater.Counts()
@@ -670,8 +750,10 @@ func c04RunInBubble(cs c04Case, res *c04Result) {
 			res.Fired = true
 		}
 	}
-	if tc, ok := upgrader.C04ThresholdCount(ln); ok && tc != 0 {
-		h.trace("listener threshold counter is %d after Close", tc)
+	if ThresholdCount != nil {
+		if tc, ok := ThresholdCount(ln); ok && tc != 0 {
+			h.trace("listener threshold counter is %d after Close", tc)
+		}
 	}
 
 	// ----- audit (i): usage of every scope is back to its previous value, on both sides -----
@@ -705,7 +787,7 @@ func c04RunInBubble(cs c04Case, res *c04Result) {
 	}
 	// ----- audit (ii): the raw connection was closed by whoever owned it -----
 	for i, a := range atts {
-		if !a.dialed {
+		if !a.Dialed {
 			continue
 		}
 		type end struct {
@@ -713,7 +795,7 @@ func c04RunInBubble(cs c04Case, res *c04Result) {
 			side  string
 			owned bool
 		}
-		for _, e := range []end{{a.cOut, "out", true}, {a.cIn, "in", ml.WasAccepted(a.cIn)}} {
+		for _, e := range []end{{a.COut, "out", true}, {a.CIn, "in", ml.WasAccepted(a.CIn)}} {
 			if !e.owned || e.c.Closed() {
 				continue
 			}
@@ -735,7 +817,7 @@ func c04RunInBubble(cs c04Case, res *c04Result) {
 	if stacks, _ := memnet.BubbleGoroutines(); len(stacks) > 0 {
 		sigs := map[string]struct{}{}
 		for _, st := range stacks {
-			sigs[c04Sig(st)] = struct{}{}
+			sigs[leakSig(st)] = struct{}{}
 		}
 		var l []string
 		for s := range sigs {
@@ -751,16 +833,16 @@ func c04RunInBubble(cs c04Case, res *c04Result) {
 			sb.WriteString("\n--- " + memnet.TopFrames(st, 8))
 		}
 		h.vio("goroutine-left/"+l[0], "%d goroutine(s) started for the attempt are still blocked after both connections, the listener and the resource managers were closed and %v of virtual time passed (harness steps that did not return: %v):%s",
-			len(stacks), c04Settle, h.hung, sb.String())
+			len(stacks), Settle, h.hung, sb.String())
 		// unblock what can be unblocked so that as little as possible stays behind in the process
 		for _, a := range atts {
-			a.cOut.Abort()
+			a.COut.Abort()
 		}
 	}
 }
 
-// c04Sig: the innermost frame of a goroutine dump that belongs to libp2p code (stable part of a leak key).
-func c04Sig(stack string) string {
+// leakSig: the innermost frame of a goroutine dump that belongs to libp2p code (stable part of a leak key).
+func leakSig(stack string) string {
 	first := ""
 	for _, l := range strings.Split(stack, "\n")[1:] {
 		if strings.HasPrefix(l, "\t") || strings.HasPrefix(l, "created by") {
@@ -780,10 +862,10 @@ func c04Sig(stack string) string {
 	return first
 }
 
-// c04Run runs one case in a fresh bubble and turns "blocked goroutines remain" into a leak report if the
+// RunCase runs one case in a fresh bubble and turns "blocked goroutines remain" into a leak report if the
 // in-bubble audit did not already see it.
-func c04Run(t *testing.T, cs c04Case) *c04Result {
-	res := &c04Result{Case: cs}
+func RunCase(t *testing.T, cs Case, dial DialFunc) *Result {
+	res := &Result{Case: cs}
 	func() {
 		defer func() {
 			if p := recover(); p != nil {
@@ -795,7 +877,7 @@ func c04Run(t *testing.T, cs c04Case) *c04Result {
 							return
 						}
 					}
-					res.Vios = append(res.Vios, c04Vio{Key: "goroutine-left/at-bubble-exit", Desc: "synctest: " + msg})
+					res.Vios = append(res.Vios, Vio{Key: "goroutine-left/at-bubble-exit", Desc: "synctest: " + msg})
 				case strings.Contains(msg, "all goroutines in bubble are blocked"):
 					res.Infra = "harness deadlock: " + msg
 				default:
@@ -811,7 +893,7 @@ func c04Run(t *testing.T, cs c04Case) *c04Result {
 					res.Infra = fmt.Sprintf("panic in the bubble's root goroutine: %v\n%s", p, buf)
 				}
 			}()
-			c04RunInBubble(cs, res)
+			runInBubble(cs, res, dial)
 		})
 	}()
 	return res
